@@ -535,6 +535,12 @@ int main(void)
 				lh_foreach(json_object_get_object(O), e)
 				    it_add((const char *)lh_entry_k(e), oval((struct json_object *)lh_entry_v(e)));
 			}
+			else if (!strcmp(W[1], "lhsafe"))
+			{
+				struct lh_entry *e, *tmp;
+				lh_foreach_safe(json_object_get_object(O), e, tmp)
+				    it_add((const char *)lh_entry_k(e), oval((struct json_object *)lh_entry_v(e)));
+			}
 			else if (!strcmp(W[1], "visit"))
 			{
 				visit_root = O;
